@@ -8,7 +8,8 @@
 //	C  native/utils EncodeVarUint / DecodeVarUint      vs  refNativeVarUint (uint64 arithmetic only)
 //	   + soundness of the decoder on byte strings no uint64 encodes to (negative, >64 bit, truncated);
 //	     non-canonical forms accepted with the right value are counted, not judged (see judgeNative)
-//	D  states.NativeTokenBalance <-> StorageItem on [0, 10^27]
+//	D  states.NativeTokenBalance <-> StorageItem over the full representable range (balance.go), and ONT/ONG
+//	   approve -> allowance on a solo ledger (e2e.go)
 package main
 
 import (
@@ -672,155 +673,11 @@ func checkNative(a *acc, rng *vf.RNG, v uint64, src string) {
 	}
 }
 
-// ---------------------------------------------------------------- D: token balance <-> storage item
-
-var (
-	scale  = big.NewInt(1000000000)
-	maxBal = new(big.Int).Exp(big.NewInt(10), big.NewInt(27), nil)
-)
-
-func genBalance(rng *vf.RNG) (*big.Int, string) {
-	var x *big.Int
-	src := "random"
-	switch rng.Intn(6) {
-	case 0, 1:
-		x = randBig(rng, 90)
-		x.Abs(x)
-	case 2: // whole tokens
-		x = new(big.Int).SetUint64(rng.U64() >> uint(rng.Intn(64)))
-		x.Mul(x, scale)
-		src = "whole"
-	case 3: // whole ± a little
-		x = new(big.Int).SetUint64(rng.U64() >> uint(rng.Intn(64)))
-		x.Mul(x, scale)
-		x.Add(x, big.NewInt(int64(rng.Range(-3, 3))))
-		x.Abs(x)
-		src = "near-whole"
-	case 4: // byte-length edges of the value or of the whole-token count
-		e := rng.Range(0, 89)
-		x = new(big.Int).Add(pow2(e), big.NewInt(int64(rng.Range(-2, 2))))
-		if rng.Bool() && e < 60 {
-			x.Mul(x, scale)
-		}
-		x.Abs(x)
-		src = "edge"
-	default: // near the top of the domain
-		x = new(big.Int).Sub(maxBal, new(big.Int).SetUint64(rng.U64()>>uint(rng.Intn(64))))
-		src = "near-max"
-	}
-	if x.Cmp(maxBal) > 0 {
-		x.Mod(x, new(big.Int).Add(maxBal, big.NewInt(1)))
-	}
-	return x, src
-}
-
-func checkBalance(a *acc, rng *vf.RNG, x *big.Int, src string) {
-	r := a.r
-	a.eval(func() string { return "bal/" + x.String() })
-	orig := new(big.Int).Set(x)
-	whole := new(big.Int).Mod(x, scale).Sign() == 0
-	bal := states.NativeTokenBalance{Balance: bigint.New(x)}
-	var item *states.StorageItem
-	var raw []byte
-	if p := vf.Catch(func() { item = bal.MustToStorageItem(); raw = bal.MustToStorageItemBytes() }); p != nil {
-		r.Violation("balance:panic:encode", fmt.Sprint(p), map[string]interface{}{"balance": orig.String()})
-		return
-	}
-	if x.Cmp(orig) != 0 {
-		r.Violation("balance:encode-mutates-value", "MustToStorageItem changed the balance", map[string]interface{}{"balance": orig.String(), "after": x.String()})
-	}
-	wantVer := byte(1)
-	var wantVal []byte
-	if whole {
-		a.count("balance_whole")
-		wantVer = 0
-		wantVal = make([]byte, 8)
-		binary.LittleEndian.PutUint64(wantVal, new(big.Int).Div(orig, scale).Uint64())
-	} else {
-		a.count("balance_fractional")
-		wantVal = refNeo(orig)
-	}
-	if item.StateVersion != wantVer {
-		r.Violation(fmt.Sprintf("balance:version:whole=%v", whole), "storage item version must be 0 exactly when the balance is a multiple of 10^9",
-			map[string]interface{}{"balance": orig.String(), "version": item.StateVersion})
-	}
-	if !bytes.Equal(item.Value, wantVal) {
-		r.Violation(fmt.Sprintf("balance:item-value:whole=%v", whole), "storage item value differs from the reference (v0: 8-byte LE token count, v1: minimal LE two's complement)",
-			map[string]interface{}{"balance": orig.String(), "real": hx(item.Value), "reference": hx(wantVal), "src": src})
-	}
-	wantRaw := append([]byte{wantVer, byte(len(wantVal))}, wantVal...)
-	if !bytes.Equal(raw, wantRaw) || !bytes.Equal(item.ToArray(), raw) {
-		r.Violation("balance:item-bytes", "serialized storage item differs from [version][len][value]", map[string]interface{}{"balance": orig.String(), "real": hx(raw), "reference": hx(wantRaw)})
-	}
-	// decode the in-memory item and the item re-read from its bytes
-	for _, via := range []string{"item", "bytes"} {
-		it := item
-		if via == "bytes" {
-			it = &states.StorageItem{}
-			if err := it.Deserialization(common.NewZeroCopySource(raw)); err != nil {
-				r.Violation("balance:item-bytes-unreadable", err.Error(), map[string]interface{}{"balance": orig.String(), "raw": hx(raw)})
-				continue
-			}
-		}
-		var back states.NativeTokenBalance
-		var err error
-		if p := vf.Catch(func() { back, err = states.NativeTokenBalanceFromStorageItem(it) }); p != nil {
-			r.Violation("balance:panic:decode", fmt.Sprint(p), map[string]interface{}{"balance": orig.String(), "raw": hx(raw)})
-			continue
-		}
-		if err != nil || back.ToBigInt().Cmp(orig) != 0 {
-			r.Violation(fmt.Sprintf("balance:roundtrip:%s:whole=%v", via, whole), "NativeTokenBalanceFromStorageItem(MustToStorageItem(x)) != x",
-				map[string]interface{}{"balance": orig.String(), "raw": hx(raw), "decoded": fmt.Sprint(back.ToBigInt()), "err": fmt.Sprint(err), "src": src})
-		}
-	}
-	// bytes are a function of the value only: the same value reached through other arithmetic
-	// (different big.Int backing arrays / capacities) must give the same bytes
-	d := new(big.Int).SetUint64(rng.U64() >> uint(rng.Intn(64)))
-	var other states.NativeTokenBalance
-	how := ""
-	switch rng.Intn(3) {
-	case 0: // (x+d)-d through the type's own Add/Sub
-		t := bal.Add(states.NativeTokenBalance{Balance: bigint.New(d)})
-		o, err := t.Sub(states.NativeTokenBalance{Balance: bigint.New(d)})
-		if err != nil {
-			r.Violation("balance:sub-underflow-spurious", err.Error(), map[string]interface{}{"balance": orig.String(), "d": d.String()})
-			return
-		}
-		other, how = o, "add-sub"
-	case 1: // a big.Int that once held a much larger number
-		t := new(big.Int).Lsh(orig, 700)
-		t.Rsh(t, 700)
-		other, how = states.NativeTokenBalance{Balance: bigint.New(t)}, "shrunk-bigint"
-	default: // parsed from decimal text
-		t, _ := new(big.Int).SetString(orig.String(), 10)
-		other, how = states.NativeTokenBalance{Balance: bigint.New(t)}, "parsed"
-	}
-	a.count("balance_same_value_" + how)
-	var raw2 []byte
-	if p := vf.Catch(func() { raw2 = other.MustToStorageItemBytes() }); p != nil {
-		r.Violation("balance:panic:encode", fmt.Sprint(p), map[string]interface{}{"balance": orig.String(), "how": how})
-		return
-	}
-	if !bytes.Equal(raw, raw2) {
-		r.Violation("balance:bytes-depend-on-history:"+how, "two equal balances produced different storage item bytes",
-			map[string]interface{}{"balance": orig.String(), "first": hx(raw), "second": hx(raw2), "how": how})
-	}
-	if whole && orig.IsUint64() {
-		// informational: the decoder also accepts the v1 form of a whole balance (a second stored form of
-		// the same value; the encoder never produces it).  Observed, not judged — DESIGN limits the
-		// "one encoding" clause for balances to the encoder side.
-		alt := &states.StorageItem{StateBase: states.StateBase{StateVersion: 1}, Value: refNeo(orig)}
-		if b2, err := states.NativeTokenBalanceFromStorageItem(alt); err == nil && b2.ToBigInt().Cmp(orig) == 0 {
-			a.count("info_balance_decoder_accepts_v1_form_of_whole_balance")
-		}
-	}
-}
-
 // ---------------------------------------------------------------- main
 
 func main() {
 	r := vf.NewRun("C21", "exploration",
-		"A: integers ±(2^(8k-1)+d), ±(2^(8k)+d), |d|<=2, k<=33, all of [-70000,70000], seeded random integers up to 272 bits (bit length uniform, 30% at byte edges) and byte strings of length 0..40 (random, sign-padded minimal forms, 00.., ff.., 00..80, ff..7f, chosen top byte); B: the same edge family up to 2^136 in and out of the I128 range, random 16-byte patterns, uint64/int64 edges; C: uint64 edges (2^e±2, max), 0..70000 exhaustive, random magnitudes, each with all alternative byte forms (long length prefixes, zero-padded bodies, truncations, negative / >64-bit bodies, random bytes); D: balances in [0,10^27] (whole tokens, whole±3, byte-length edges, near 10^27, random).  Distinct by value / byte string")
+		"A: integers ±(2^(8k-1)+d), ±(2^(8k)+d), |d|<=2, k<=33, all of [-70000,70000], seeded random integers up to 272 bits (bit length uniform, 30% at byte edges) and byte strings of length 0..40 (random, sign-padded minimal forms, 00.., ff.., 00..80, ff..7f, chosen top byte); B: the same edge family up to 2^136 in and out of the I128 range, random 16-byte patterns, uint64/int64 edges; C: uint64 edges (2^e±2, max), 0..70000 exhaustive, random magnitudes, each with all alternative byte forms (long length prefixes, zero-padded bodies, truncations, negative / >64-bit bodies, random bytes); D: token balances over the full range of the storage item: whole part w in {2^e+d, e<64, |d|<=2} + 0..300 + 10^9, 10^18±1, 2^64-1.. x fraction {0,1,2,127..65536,499999999,500000000,999999998,999999999}, value byte-length edges up to 2^104, 10^27±, the largest integral / largest uint64-whole balance and the first ones above, seeded random balances in every magnitude band of w (0, <2^31, <2^32, <2^53, <2^62, <2^63, <2^64, >=2^64) with and without fraction; arbitrary storage items (version 0/1/other; 8 random bytes, uint64 edges, wrong lengths, sign-padded, negative, zero-fraction version-1 forms); ONT/ONG approve/approveV2 of boundary and seeded amounts on a solo ledger, three rounds over the same keys, read back as raw item, allowanceV2 and allowance.  Distinct by value / byte string / (asset, method, amount, round)")
 	rng := vf.NewRNG(vf.Seed())
 	one := func(_ uint64) *acc { return &acc{r: r, counts: map[string]int64{}, stride: 1} }
 
@@ -934,41 +791,31 @@ func main() {
 		}
 	})
 
-	// ---------------- D
+	// ---------------- D (balance.go, e2e.go)
 	{
 		a := one(0)
 		sub := rng.Sub(6 << 48)
-		edges := []*big.Int{new(big.Int), big.NewInt(1), new(big.Int).Set(maxBal), new(big.Int).Sub(maxBal, big.NewInt(1)), new(big.Int).Sub(maxBal, scale)}
-		for _, e := range edgeSet(11) {
-			if e.Sign() >= 0 && e.Cmp(maxBal) <= 0 {
-				edges = append(edges, e)
-				if t := new(big.Int).Mul(e, scale); t.Cmp(maxBal) <= 0 {
-					edges = append(edges, t, new(big.Int).Add(t, big.NewInt(1)), new(big.Int).Sub(t, big.NewInt(1)))
-				}
-			}
+		for _, e := range balanceBoundaries() {
+			checkBalance(a, sub, e, "edge")
+			a.count("balance_edge_values")
 		}
-		for k := int64(0); k <= 300; k++ {
-			for d := int64(-1); d <= 1; d++ {
-				if v := k*1000000000 + d; v >= 0 {
-					edges = append(edges, big.NewInt(v))
-				}
-			}
-		}
-		for _, e := range edges {
-			if e.Sign() >= 0 {
-				checkBalance(a, sub, e, "edge")
-				a.count("balance_edge_values")
-			}
-		}
+		itemBoundaries(a)
 		a.flush()
 	}
 	chunks(r, rng, 7, vf.N(150000, 8000000), 5000, func(a *acc, rng *vf.RNG, i int) {
 		x, src := genBalance(rng)
 		checkBalance(a, rng, x, src)
 		if i < 2 {
-			r.Sample(map[string]interface{}{"part": "D", "balance": x.String(), "item": hx(states.NativeTokenBalance{Balance: bigint.New(x)}.MustToStorageItemBytes())})
+			if _, _, ok := refItem(x); ok {
+				r.Sample(map[string]interface{}{"part": "D", "balance": x.String(), "item": hx(states.NativeTokenBalance{Balance: bigint.New(x)}.MustToStorageItemBytes())})
+			}
 		}
 	})
+	chunks(r, rng, 12, vf.N(100000, 5000000), 5000, func(a *acc, rng *vf.RNG, i int) {
+		ver, val, src := genItem(rng)
+		judgeItem(a, ver, val, src)
+	})
+	allowanceEndToEnd(r, rng.Sub(13<<48))
 
 	for _, k := range []string{
 		"neo_enc_zero", "neo_enc_pos", "neo_enc_neg", "neo_enc_pos/top-bit-set", "neo_enc_neg/top-bit-set", "neo_enc_pos/top-bit-set/power-of-two", "neo_enc_neg/top-bit-set/power-of-two",
@@ -978,10 +825,29 @@ func main() {
 		"native_reject:truncated", "native_reject:negative", "native_reject:over-64-bit",
 		"native_enc_len1", "native_enc_len2", "native_enc_len9", "native_enc_len10",
 		"balance_whole", "balance_fractional", "balance_edge_values", "balance_same_value_add-sub", "balance_same_value_shrunk-bigint", "balance_same_value_parsed",
+		"balance_from_integer", "balance_max_representable_integral", "balance_max_representable_fractional", "balance_oversized_integral_refused", "balance_band_ge2^64_fractional",
+		"balance_item_v0-canonical", "balance_item_v0-truncated", "balance_item_v0-trailing-bytes", "balance_item_v1-canonical", "balance_item_v1-negative", "balance_item_v1-sign-padded", "balance_item_v1-zero-fraction",
+		"e2e_stored_item_checked", "e2e_read_allowance", "e2e_read_allowanceV2",
+		"e2e_approve_ok_ong_approve_integral", "e2e_approve_ok_ong_approveV2_integral", "e2e_approve_ok_ong_approveV2_fractional",
+		"e2e_approve_ok_ont_approve_integral", "e2e_approve_ok_ont_approveV2_integral", "e2e_approve_ok_ont_approveV2_fractional",
+		"e2e_overwrite_integral_by_fractional", "e2e_overwrite_fractional_by_integral",
 	} {
 		r.Require(k, 1)
 	}
-	r.Assume("balances are drawn from [0, 10^27] (10^18 whole tokens fits uint64; MustToStorageItem is documented to panic beyond 2^64 whole tokens)")
+	for _, kind := range []string{"_integral", "_fractional"} {
+		for _, b := range bandNames[:7] { // whole part inside uint64: both forms exist in every band
+			r.Require("balance_band_"+b+kind, int64(vf.N(50, 500)))
+		}
+		for _, an := range anchorNames {
+			r.Require("balance_boundary_"+an+kind, 1)
+		}
+		for _, b := range bandNames[:5] { // approvals are capped at the total supply (10^18 whole ONG < 2^62)
+			r.Require("e2e_band_"+b+kind, 1)
+		}
+	}
+	r.Assume("token balances are non-negative; an integral balance above 2^64-1 whole tokens has no storage form (MustToStorageItem is documented to panic) and is only required not to be encoded lossily")
+	r.Extra("note_balance_item_decoder", "NativeTokenBalanceFromStorageItem accepts stored forms the encoder never writes (version-1 item of an integral balance, sign-padded version-1 bytes, version-0 item with bytes after the 8th, versions other than 0/1 read as version 1): counters info_balance_decoder_accepts_*. Same triage as for DecodeVarUint: the encoder side (compact form for integral values, minimal bytes, function of the value, round trip, re-encoding gives the same bytes) is a verdict; an accepted non-canonical item must carry the value of its canonical normalisation and re-encode to the canonical item, a negative or truncated item must be rejected")
+	r.Extra("note_e2e", "ONT/ONG approvals are capped at the total supply by the contracts (10^9 / 10^18 whole tokens), so whole parts from 2^62 on are refused end to end (info_e2e_approve_refused_*); the full uint64 range of the storage item is covered at the NativeTokenBalance API")
 	r.Extra("note_native_varuint_decoder", "DecodeVarUint accepts zero-padded bodies (e.g. 01 00 -> 0, canonical 00) because its body goes through BigIntFromNeoBytes, which normalises sign-padded forms by design; counter info_native_varuint_decoder_accepts_padded_body. Triage: C21 quantifies over integers and requires the ENCODERS to be minimal and a function of the value; decoder leniency with the correct value is observed, not judged. A non-canonical form decoded to any other value, and negative / >64-bit / truncated forms decoded to a uint64, remain violations")
 	r.Assume("DecodeVarUintWrapping is lossy above 2^64 by its declared purpose and is judged only on canonical encodings")
 	r.Finish()
